@@ -50,6 +50,7 @@ type Val struct {
 	Len int    `json:"len"`
 	Tag uint32 `json:"tag"`
 	Raw Bytes  `json:"raw,omitempty"`
+	Z   int    `json:"z,omitempty"` // the value ends in this many zero bytes (only in runs flagged ZeroTail: standard I/O throughout)
 }
 
 // Bytes materialises the value.
@@ -74,6 +75,12 @@ func (v Val) Bytes() []byte {
 	// (zero) model, so a trailing zero would be invisible and the logical end of an open mmap file ambiguous
 	if b[len(b)-1] == 0 {
 		b[len(b)-1] = 0x5a
+	}
+	if v.Z > 0 && len(b) > n+v.Z {
+		// binary-looking values: little-endian counters, zero-padded fields (the tag in front keeps them unique)
+		for i := len(b) - v.Z; i < len(b); i++ {
+			b[i] = 0
+		}
 	}
 	return b
 }
@@ -133,6 +140,7 @@ type Damage struct {
 
 // Case is one complete, self-contained simulation input: execution is a pure function of it and of the code.
 type Case struct {
+	ZeroTail bool           `json:"zerotail,omitempty"` // values may end in zero bytes; every Open of the run uses standard I/O (the model of an open mapped file cannot see trailing zeros)
 	Prop     string         `json:"prop"`
 	Arm      string         `json:"arm"`
 	Seed     uint64         `json:"seed"`
